@@ -252,32 +252,35 @@ Definition ndrift_ok (o : res) (m : mres) : bool :=
 
 (* ------------------------------------------------------------------ *)
 (* dispatch                                                             *)
+(* FS2 / FN2: the pinned mirror and the mirror of the proposed repair *)
 Inductive fspec : Type := FS (m : list value -> res) (s : list value -> sres) (setlike : bool)
+                        | FS2 (m m' : list value -> res) (s : list value -> sres) (setlike : bool)
                         | FN (m : list value -> mres) (s : list value -> nsres)
+                        | FN2 (m m' : list value -> mres) (s : list value -> nsres)
                         | FNone.
 
 Definition fn_of (fid : N) : fspec :=
   match fid with
   | 1 => FS m_union s_union true
   | 2 => FS m_union_distinct s_union_distinct true
-  | 3 => FS m_intersection s_intersection true
+  | 3 => FS2 m_intersection m_intersection_fx s_intersection true
   | 4 => FS m_minus s_minus true
-  | 5 => FS m_outersection s_outersection true
+  | 5 => FS2 m_outersection m_outersection_fx s_outersection true
   | 6 => FS m_unique s_unique false
   | 7 => FS m_sorted s_sorted false
   | 8 => FS m_sorted_unique s_sorted_unique false
   | 9 => FS m_flatten s_flatten false
-  | 10 => FS m_slice s_slice false
+  | 10 => FS2 m_slice m_slice_fx s_slice false
   | 11 => FS m_first s_first false
   | 12 => FS m_last s_last false
-  | 13 => FS m_nth s_nth false
+  | 13 => FS2 m_nth m_nth_fx s_nth false
   | 14 => FS m_append s_append false
   | 15 => FS m_push s_append false
   | 16 => FS m_unshift s_unshift false
   | 17 => FS m_pop s_pop false
   | 18 => FS m_shift s_shift false
-  | 19 => FS m_remove_nth s_remove_nth false
-  | 20 => FS m_remove_value s_remove_value false
+  | 19 => FS2 m_remove_nth m_remove_nth_fx s_remove_nth false
+  | 20 => FS2 m_remove_value m_remove_value_fx s_remove_value false
   | 21 => FS m_remove_values s_remove_values false
   | 22 => FS m_reverse s_reverse false
   | 23 => FS m_length s_length false
@@ -291,7 +294,7 @@ Definition fn_of (fid : N) : fspec :=
   | 35 => FS m_keep_keys s_keep_keys false
   | 36 => FS m_zip s_zip false
   | 40 => FN m_min s_min
-  | 41 => FN m_max s_max
+  | 41 => FN2 m_max m_max_fx s_max
   | 42 => FN m_sum s_sum
   | 43 => FN m_average s_average
   | 44 => FN m_median s_median
@@ -305,14 +308,16 @@ Definition fn_of (fid : N) : fspec :=
 
 Definition verdict_ok (fid : N) (args : list value) (o : res) : bool :=
   match fn_of fid with
-  | FS _ s _ => agree o (s args)
-  | FN _ s => nagree o (s args)
+  | FS _ s _ | FS2 _ _ s _ => agree o (s args)
+  | FN _ s | FN2 _ _ s => nagree o (s args)
   | FNone => false
   end.
 Definition mirror_ok (fid : N) (args : list value) (o : res) : bool :=
   match fn_of fid with
   | FS m _ sl => drift_ok sl o (m args)
+  | FS2 m m' _ sl => drift_ok sl o (m args) || drift_ok sl o (m' args)
   | FN m _ => ndrift_ok o (m args)
+  | FN2 m m' _ => ndrift_ok o (m args) || ndrift_ok o (m' args)
   | FNone => false
   end.
 
